@@ -403,7 +403,7 @@ def filter_pseudo_headers_ref(k: int, i0: int, i1: int, i2: int, i3: int, i4: in
     per_path=120,
     bounds="one HTTP/2 connection: 0..3 uploads of {1000, 21845, 65535} bytes to an application that answers at once without reading, the client (which respects flow control) finishing each upload after the response, then one upload of {0, 10, 70000, 150000} bytes to an application that reads everything: that instance must receive exactly the bytes sent, ending with more_body false",
     encodes=["hypercorn/protocol/h2.py::H2Protocol._handle_events", "hypercorn/protocol/http_stream.py::HTTPStream.handle", "hypercorn/protocol/http_stream.py::HTTPStream.app_put"],
-    stubs=["tier B runtime", "client-side h2 state machine that never exceeds the windows the server granted"],
+    stubs=["tier B runtime", "client-side h2 state machine that never exceeds the windows the server granted", "the session body runs un-traced (concrete execution per solver-chosen choice vector)"],
 )
 def h2_upload_after_early_answers(early: int, each: int, zi: int, flavour: int) -> bool:
     """
@@ -439,12 +439,6 @@ def h2_upload_after_early_answers(early: int, each: int, zi: int, flavour: int) 
         await send({"type": "http.response.start", "status": 200, "headers": [(b"content-length", b"2")]})
         await send({"type": "http.response.body", "body": b"ok", "more_body": False})
 
-    conn = Conn(app, make_config(), alpn="h2", flavour=flavour)
-    c = H2Client()
-    conn.feed(c.take())
-    c.feed(conn.take())
-    conn.feed(c.take())
-
     def upload(sid: int, path: bytes, payload: bytes) -> str:
         c.request(sid, b"POST", path, end_stream=False)
         conn.feed(c.take())
@@ -473,16 +467,24 @@ def h2_upload_after_early_answers(early: int, each: int, zi: int, flavour: int) 
         c.feed(conn.take())
         return ""
 
-    why = ""
-    sid = 1
-    for i in range(early):
-        why = upload(sid, b"/early%d" % i, bytes((j * 7 + i) % 251 for j in range(each)))
-        if why:
-            # the early-answered stream itself may legitimately run out of stream-level credit: only the connection must stay usable
-            why = ""
-        sid += 2
-    payload = bytes((j * 13 + 5) % 251 for j in range(size))
-    why = upload(sid, b"/up", payload)
+    # every choice is pinned; hundreds of kB through the real protocol run un-traced (CrossHair's byte-level model of
+    # large buffers costs minutes per path): the solver enumerates the choice vector
+    with NoTracing():
+        conn = Conn(app, make_config(), alpn="h2", flavour=flavour)
+        c = H2Client()
+        conn.feed(c.take())
+        c.feed(conn.take())
+        conn.feed(c.take())
+        why = ""
+        sid = 1
+        for i in range(early):
+            why = upload(sid, b"/early%d" % i, bytes((j * 7 + i) % 251 for j in range(each)))
+            if why:
+                # the early-answered stream itself may legitimately run out of stream-level credit: only the connection must stay usable
+                why = ""
+            sid += 2
+        payload = bytes((j * 13 + 5) % 251 for j in range(size))
+        why = upload(sid, b"/up", payload)
     if not why:
         g = got.get(b"/up")
         if g is None:
@@ -496,3 +498,73 @@ def h2_upload_after_early_answers(early: int, each: int, zi: int, flavour: int) 
     if not why and conn.sched.errors:
         why = "exception escaped a task: %r" % (conn.sched.errors[0],)
     return done(why == "", early_uploads=early, early_size=each, size=size, flavour=flavour, why=why)
+
+
+# ------------------------------------------------------------------ an application that starts reading late (real workers, virtual time)
+
+
+@harness(
+    "C01",
+    dom={"flavour": (0, 1), "rt": (0, 2), "ci": (0, 2), "wait": (0, 2)},
+    split={"flavour": "each"},
+    witnesses=[{"flavour": 0, "rt": 1, "ci": 2, "wait": 2}, {"flavour": 1, "rt": 1, "ci": 2, "wait": 2}, {"flavour": 1, "rt": 0, "ci": 0, "wait": 0}],
+    budget=150,
+    per_path=240,
+    bounds="each worker's real TCPServer: a chunked POST of {3, 12, 40} chunks (3 fits the application queue, the others do not) sent at once to an application that starts reading after {0, 0.5, 3} s, with read_timeout in {None, 1, 10}: the application receives exactly the bytes sent, one final more_body=false and no disconnect before it has answered",
+    encodes=["hypercorn/asyncio/tcp_server.py::TCPServer._read_data", "hypercorn/trio/tcp_server.py::TCPServer._read_data", "hypercorn/asyncio/task_group.py::TaskGroup.spawn_app", "hypercorn/trio/task_group.py::TaskGroup.spawn_app",
+             "hypercorn/protocol/http_stream.py::HTTPStream.handle"],
+    stubs=["tier C runtimes (virtual asyncio loop / trio MockClock)", "the session body runs un-traced (concrete execution per solver-chosen choice vector)"],
+)
+def late_reader_upload(flavour: int, rt: int, ci: int, wait: int) -> bool:
+    """
+    pre: DOM(late_reader_upload, flavour=flavour, rt=rt, ci=ci, wait=wait)
+    post: _
+    """
+    from vf.session import all_out, run_session
+
+    enter()
+    flavour = "asyncio" if conc(flavour, 0, 1) == 0 else "trio"
+    read_timeout = [None, 1, 10][conc(rt, 0, 2)]
+    n_chunks = [3, 12, 40][conc(ci, 0, 2)]
+    delay = [0.0, 0.5, 3.0][conc(wait, 0, 2)]
+    chunks = [bytes([65 + (i % 26)]) * (100 + i) for i in range(n_chunks)]
+    seen = {"msgs": [], "body": b""}
+
+    def factory(env):
+        async def app(scope, receive, send, sync_spawn=None, call_soon=None):
+            if delay:
+                await env.sleep(delay)
+            while True:
+                m = await receive()
+                seen["msgs"].append((m["type"], m.get("more_body")))
+                if m["type"] != "http.request":
+                    return
+                seen["body"] += m["body"]
+                if not m.get("more_body"):
+                    break
+            await send({"type": "http.response.start", "status": 200, "headers": [(b"content-length", b"2")]})
+            await send({"type": "http.response.body", "body": b"ok", "more_body": False})
+
+        return app
+
+    data = h1_request("POST", b"/up", [(b"Host", b"example.com")], chunks, "chunked")
+    cfg = make_config(keep_alive_timeout=30, read_timeout=read_timeout) if read_timeout is not None else make_config(keep_alive_timeout=30)
+    # every choice is pinned; the session (dozens of chunks through the real runtimes) runs un-traced - the solver
+    # enumerates the choice vector (same division of labour as C08's back-pressure sessions)
+    from vf.rt import NoTracing
+
+    with NoTracing():
+        obs = run_session(flavour, factory, cfg, [("feed", data), ("sleep", delay + 0.5)])
+    resps, err, _, _ = h1_parse(all_out(obs), [("POST", b"/up")])
+    want = b"".join(chunks)
+    finals = [m for m in seen["msgs"] if m == ("http.request", False)]
+    why = ""
+    if obs["handler_error"] is not None:
+        why = "connection handler raised %r" % (obs["handler_error"],)
+    elif seen["body"] != want:
+        why = f"application received {len(seen['body'])} of {len(want)} body bytes ({[t for t, _ in seen['msgs']][-3:]})"
+    elif len(finals) != 1 or seen["msgs"][-1] != ("http.request", False):
+        why = f"end of the body signalled {len(finals)} times / not last: {seen['msgs'][-3:]}"
+    elif err or len(resps) != 1 or resps[0].status != 200 or not resps[0].complete:
+        why = f"client did not get the 200: {resps!r} {err}"
+    return done(why == "", flavour=flavour, read_timeout=read_timeout, chunks=n_chunks, app_waits=delay, why=why)
